@@ -85,6 +85,22 @@ func genReflMeta(r *vh.Rand) string {
 	return " rm=" + strings.Join(items, ",")
 }
 
+// genDial: the gun options dial_options.authority / dial_options.timeout (1/4 of the cases; the :authority of
+// every call and reflection stream is then part of the observation)
+func genDial(r *vh.Rand) string {
+	if !r.Chance(1, 4) {
+		return ""
+	}
+	o := " au=-"
+	if r.Chance(2, 3) {
+		o = " au=" + vh.HexS(r.Pick([]string{"example.org", "svc.internal:443", "x", "lb-7.prod.example.net", "127.0.0.1:1"}))
+	}
+	if r.Chance(1, 2) {
+		o += fmt.Sprintf(" dt=%d", r.PickInt([]int{300, 3000}))
+	}
+	return o
+}
+
 // the target's answers: gRPC status codes 1..16, UNAVAILABLE / RESOURCE_EXHAUSTED / INTERNAL (what an
 // overloaded or restarting backend says) more often
 var answerCodes = []int{14, 14, 14, 14, 8, 8, 13, 13, 4, 1, 2, 3, 5, 6, 7, 9, 10, 11, 12, 15, 16}
@@ -223,6 +239,7 @@ func genJSON(r *vh.Rand) string {
 	} else {
 		opts += genPlan(r, n, 2, 5)
 	}
+	opts += genDial(r)
 	return fmt.Sprintf("json %s %s %d %d %d %d %s%s", modeR, vh.B(r.Chance(1, 2)), r.Range(0, 3), ninst,
 		r.PickInt([]int{0, 0, 2000, 5000, 40000}), n, strings.Join(es, " "), opts)
 }
@@ -247,6 +264,23 @@ func genTmpl(r *vh.Rand, pp string) string {
 		}
 	}
 	return b.String()
+}
+
+// badTmpl: a template that is not one of the well-formed references: an action that is never closed
+// (text/template refuses it: the step is a failed sample, nothing is sent), or a path that names nothing
+// in the variables (a step that has not run — text/template renders "<no value>", it is NOT an error:
+// the call is sent with that text)
+func badTmpl(r *vh.Rand, pp string) string {
+	switch r.Intn(4) {
+	case 0:
+		return "v{{.request." + pp + ".preprocessor.u.token"
+	case 1:
+		return "{{"
+	case 2:
+		return "{{.request.nostep.postprocessor.x}}"
+	default:
+		return "id-{{.request.never_ran.postprocessor.body}}"
+	}
 }
 
 // tags are labels of samples, not identities: several distinct calls may share one or have none
@@ -320,6 +354,23 @@ func genScen(r *vh.Rand) string {
 		if kind == 2 && i > 0 {
 			fs = append(fs, `"zzz": 1`)
 		}
+		// kind 3: an odd template (see badTmpl) in the payload or in one metadata value: one that cannot be
+		// parsed makes the step a failed sample (code 0), nothing is sent, the shot ends there, other shots
+		// are not disturbed; an undefined path is rendered as "<no value>"
+		if kind == 3 && i > 0 {
+			bad := badTmpl(r, pp)
+			if r.Chance(1, 2) || len(m.fields) == 0 {
+				item := vh.HexS("x-err") + "=" + vh.HexS(bad)
+				if meta == "-" {
+					meta = item
+				} else {
+					meta += "," + item
+				}
+			} else {
+				fs = append(fs[:0:0], fs...)
+				fs = append(fs, jstr("zz")+`: "`+bad+`"`)
+			}
+		}
 		pl := vh.HexS("{" + strings.Join(fs, ", ") + "}")
 		defs = append(defs, fmt.Sprintf("%s;%s;%s;%s;%s;%s", vh.HexS(name), vh.HexS(tagFor(r, i)), vh.HexS(call), meta, pl, vh.B(i == 0)))
 	}
@@ -338,7 +389,7 @@ func genScen(r *vh.Rand) string {
 		refl = "r"
 	}
 	// at most 4 steps per shot
-	opts := genReflMeta(r) + genPlan(r, 4*nshots, 2, 5)
+	opts := genReflMeta(r) + genPlan(r, 4*nshots, 2, 5) + genDial(r)
 	return fmt.Sprintf("scen %d%s %d %s %s %s %s%s", ninst, refl, r.PickInt([]int{0, 0, 3000, 20000}), strings.Join(order, ","),
 		strings.Join(users, ","), strings.Join(defs, "|"), strings.Join(scens, "|"), opts)
 }
